@@ -40,6 +40,8 @@ CONSTANTS MaxH,         \* heights / slots 0..MaxH
           FullNode,     \* BOOLEAN: controller fullNode flag
           Cap,          \* InstanceContainerDefaultCapacity
           Weaken,
+          GapFix,       \* BOOLEAN: FALSE = SaveInstance as at the pinned commit (highest iff msg.Height >= c.Height);
+                        \* TRUE = the proposed repair (also highest when above the stored highest height)
           Direct,       \* BOOLEAN: include CtlStart
           Timeouts      \* BOOLEAN: include OnTimeout
 
@@ -93,7 +95,8 @@ CompactAt(st, h) == LET k == Idx(st, h) IN IF k = 0 THEN st ELSE [st EXCEPT ![k]
 Save(d, inst, cr, n, hgt) ==
     LET rec == [h |-> inst.h, cr |-> cr, n |-> n,
                 inst |-> [Compact(inst) EXCEPT !.run = FALSE, !.stop = FALSE]]
-        isHighest == Weaken = "saveAlwaysHighest" \/ inst.h >= hgt
+        isHighest == \/ Weaken = "saveAlwaysHighest" \/ inst.h >= hgt
+                     \/ GapFix /\ d.hi.h < inst.h
     IN IF FullNode
        THEN [hi |-> IF isHighest THEN rec ELSE d.hi, hist |-> [d.hist EXCEPT ![inst.h] = rec]]
        ELSE [hi |-> IF isHighest THEN rec ELSE d.hi, hist |-> d.hist]
